@@ -339,6 +339,9 @@ func c14Linearizable(c *Ctx) {
 
 func c14Race(c *Ctx) {
 	bin := "/verif/harness/bin/racer"
+	if p := os.Getenv("VERIF_RACER"); p != "" {
+		bin = p
+	}
 	if _, err := os.Stat(bin); err != nil {
 		c.Res.Notes = append(c.Res.Notes, "race-enabled stress binary not built (cgo unavailable?): race detector stage skipped")
 		c.Res.Inconclusive++
